@@ -187,6 +187,8 @@ def run_case(case):
     oe, orf = sa.evaluate_operation, sa.refine
 
     def ev_wrap():
+        if len(log) > 600:
+            raise core.HarnessError("horizon: more than 300 evaluate/refine rounds in one driver call")
         r = oe()
         if vt is not None:
             vt.advance(1.0)          # one unit of virtual time per completed evaluation
@@ -216,9 +218,14 @@ def run_case(case):
         # matter - the second call is judged like any run (stop rule, error formula, array lengths) and must equal the run of a fresh object
         first_log = list(log)
         del log[:]
-        R = sa.performSpatiallyAdaptiv(lm[0], lm[1], eo, tol=tol, max_evaluations=mx, min_evaluations=mn, print_output=False,
-                                       recalculate_frequently=strat.endswith("_recalc"),
-                                       evaluation_points=EP if strat.endswith("_ep") else None)
+        try:
+            R = sa.performSpatiallyAdaptiv(lm[0], lm[1], eo, tol=tol, max_evaluations=mx, min_evaluations=mn, print_output=False,
+                                           recalculate_frequently=strat.endswith("_recalc"),
+                                           evaluation_points=EP if strat.endswith("_ep") else None)
+        except core.HarnessError as e:
+            return {"failures": [fail("second_call_does_not_stop", "second performSpatiallyAdaptiv on one object (first call: %d evaluations, points %r): %s; points so far %r"
+                                      % (len([x for x in first_log if x[0] == "E"]), list(R[6]), e, [x[2] for x in log if x[0] == "E"][-5:]), key)],
+                    "canon": (strat, kind, norm, tol, mn, mx, mt, c.get("clock"), True), "outcome": ("no stop",), "nontrivial": True, "evals": len(log)}
         sa2, eo2, lm2, op2, ref2, seen2, nrm2 = _make(strat, kind, norm)
         Rf = sa2.performSpatiallyAdaptiv(lm[0], lm[1], eo2, tol=tol, max_evaluations=mx, min_evaluations=mn, print_output=False,
                                          recalculate_frequently=strat.endswith("_recalc"),
